@@ -25,7 +25,8 @@ LastV(fs, n, wt, dflt) ==
     LET s == Sel(fs, n) IN
     IF Len(s) = 0 THEN dflt ELSE s[Len(s)].v
 WrongWT(fs, n, wt) == \E i \in 1..Len(fs) : fs[i].n = n /\ fs[i].wt # wt
-HasGroup(fs) == \E i \in 1..Len(fs) : fs[i].wt = "group"
+CutTypes == {"varintcut", "fix32cut", "fix64cut", "lencut"}   \* a field whose payload ends before it is complete (the token "cK" gives the K bytes present)
+HasGroup(fs) == \E i \in 1..Len(fs) : fs[i].wt = "group" \/ fs[i].wt \in CutTypes
 
 KVBad(fs) == WrongWT(fs, 1, "len") \/ WrongWT(fs, 2, "len") \/ WrongWT(fs, 3, "fix64") \/ WrongWT(fs, 4, "varint") \/ HasGroup(fs)
 KVContent(fs) == [key |-> LastV(fs, 1, "len", "b0"), val |-> LastV(fs, 2, "len", "b0"),
@@ -125,13 +126,27 @@ Hostile == {
     <<F(1, "varint", "v3"), F(9, "group", "v0")>>,
     <<F(1, "varint", "v3"), M(3, <<F(9, "group", "v0")>>)>>,
     <<F(1, "varint", "v3"), M(3, <<M(2, <<F(9, "group", "v0")>>)>>)>> }
-HostileRejected == \A h \in Hostile : ~Content(h).ok
+(* truncated last field at every nesting level, the enclosing lengths being consistent: a fixed-width field, a   *)
+(* varint or a length-delimited field of a known or an unknown number whose payload ends early                   *)
+CutFields == {F(n, "fix64cut", c) : n \in {9, 3, 5}, c \in {"c0", "c1", "c7"}}
+             \cup {F(n, "fix32cut", c) : n \in {9, 10}, c \in {"c0", "c3"}}
+             \cup {F(n, "varintcut", c) : n \in {9, 4, 1}, c \in {"c1", "c9"}}
+             \cup {F(n, "lencut", c) : n \in {9, 2, 1}, c \in {"c0", "c4"}}
+KVk == F(1, "len", "b2#k")
+Truncated == UNION {{ <<F(1, "varint", "v3"), M(3, <<F(1, "len", "b4#n"), M(2, <<KVk, t>>)>>)>>,                       \* in a KV entry
+                      <<F(1, "varint", "v3"), M(3, <<F(1, "len", "b4#n"), M(2, <<KVk>>), M(2, <<KVk, t>>), F(3, "varint", "v8")>>)>>,  \* in a KV entry, fields of the DBI following
+                      <<F(1, "varint", "v3"), M(3, <<F(1, "len", "b4#n"), M(2, <<KVk>>), t>>)>>,                       \* in a DBI
+                      <<F(1, "varint", "v3"), M(2, <<F(1, "len", "b2#g"), t>>), M(3, DBIc)>>,                           \* in the meta message
+                      <<F(1, "varint", "v3"), M(3, DBIc), t>> } : t \in CutFields}                                    \* at the top level
+HostileRejected == \A h \in Hostile \cup Truncated : ~Content(h).ok
 ASSUME HostileRejected
 
 Rows == UNION {{[tree |-> v, want |-> Content(v)] : v \in Variants(b)} : b \in Bases}
 HostileRows == {[tree |-> h, want |-> Content(h)] : h \in Hostile}
+TruncatedRows == {[tree |-> h, want |-> Content(h)] : h \in Truncated}
 ASSUME JsonSerialize("wire_rows.json", SetToSeq(Rows))
 ASSUME JsonSerialize("wire_hostile_rows.json", SetToSeq(HostileRows))
+ASSUME JsonSerialize("wire_truncated_rows.json", SetToSeq(TruncatedRows))
 
 VARIABLE x
 Init == x = 0
